@@ -191,9 +191,20 @@ func ruleC17(c *Ctx, r *Report) {
 				for _, in := range bb.Instrs {
 					if dc, ok := in.(*ssa.Call); ok && calleeKey(&dc.Call) == delKey {
 						for _, arg := range dc.Call.Args {
-							if isAccumulatorPhi(arg, l.Loop.Header) {
+							if isAccumulator(arg, l.Loop.Header, region) {
 								covered = true
 							}
+						}
+					}
+				}
+			}
+			// ... or a deferred delete guarded only by a completion flag that this return leaves unset
+			if !covered {
+				if ok, _, flag := unwindCleanup(a.download, l.Loop.Header, region, delKey); ok && flag != nil {
+					covered = true
+					for _, in := range b.Instrs {
+						if st, ok := in.(*ssa.Store); ok && st.Addr == flag {
+							covered = false
 						}
 					}
 				}
@@ -202,6 +213,21 @@ func ruleC17(c *Ctx, r *Report) {
 				"return inside the host loop is dominated by "+a.del.Name()+"(files so far)",
 				"a return inside the host loop is not preceded by deleting the files downloaded so far")
 		}
+	}
+
+	// ---- R2 (unwinding): a panic raised below the host loop (the HTTP stack parses what the
+	// server sent) unwinds through the download function; only a deferred call runs then. A
+	// defer registered before the loop must delete the files downloaded so far.
+	for _, call := range callsIn(a.download, func(k string, _ *ssa.Call) bool { return k == fnFullName(a.perHost) }) {
+		l := innermostLoopOf(loops, call.Block())
+		if l == nil {
+			continue
+		}
+		construct := a.download.Name() + ":panic-unwind-cleanup"
+		ok, why, _ := unwindCleanup(a.download, l.Loop.Header, l.Loop.Region(), delKey)
+		r.Check(ok, "C17-R2", construct, c.InstrPos(call),
+			"a defer registered before the host loop deletes the files downloaded so far when a panic unwinds ("+why+")",
+			"a panic below the host loop (HTTP stack, digest challenge parser) unwinds through "+a.download.Name()+" without deleting the files downloaded so far: "+why)
 	}
 
 	// ---- R3: CLI exits after a successful download
@@ -418,6 +444,178 @@ func isAccumulatorPhi(v ssa.Value, h *ssa.BasicBlock) bool {
 		}
 	}
 	return false
+}
+
+// isAccumulator: v is the slice the loop appends to - a phi at the loop header fed by
+// append(phi, ...), or a load of a local cell that the loop stores append(load cell, ...) into
+// (the form the variable takes once a closure captures it).
+func isAccumulator(v ssa.Value, h *ssa.BasicBlock, region map[*ssa.BasicBlock]bool) bool {
+	if isAccumulatorPhi(v, h) {
+		return true
+	}
+	if u, ok := v.(*ssa.UnOp); ok && u.Op == token.MUL {
+		if al, ok := u.X.(*ssa.Alloc); ok {
+			return isAccumulatorCell(al, region)
+		}
+	}
+	return false
+}
+
+func isAccumulatorCell(al *ssa.Alloc, region map[*ssa.BasicBlock]bool) bool {
+	for _, ref := range *al.Referrers() {
+		st, ok := ref.(*ssa.Store)
+		if !ok || st.Addr != al || !region[st.Block()] {
+			continue
+		}
+		if c, ok := st.Val.(*ssa.Call); ok && calleeKey(&c.Call) == "builtin append" {
+			if u, ok := c.Call.Args[0].(*ssa.UnOp); ok && u.Op == token.MUL && u.X == al {
+				return true
+			}
+		}
+	}
+	return false
+}
+
+// unwindCleanup looks for `defer func(){ ... del(acc) ... }()` in fn, registered in a block
+// that dominates the loop header, whose delete call runs while a panic unwinds: it is
+// unconditional, or guarded by recover() != nil, or by a completion flag that is only set
+// immediately before a return.
+func unwindCleanup(fn *ssa.Function, header *ssa.BasicBlock, region map[*ssa.BasicBlock]bool, delKey string) (bool, string, *ssa.Alloc) {
+	why := "no deferred call of the delete helper on the accumulated files"
+	for _, b := range fn.Blocks {
+		for _, in := range b.Instrs {
+			d, ok := in.(*ssa.Defer)
+			if !ok {
+				continue
+			}
+			mc, ok := d.Call.Value.(*ssa.MakeClosure)
+			if !ok {
+				continue
+			}
+			cl := mc.Fn.(*ssa.Function)
+			for _, blk := range cl.Blocks {
+				for _, ci := range blk.Instrs {
+					dc, ok := ci.(*ssa.Call)
+					if !ok || calleeKey(&dc.Call) != delKey {
+						continue
+					}
+					onAcc := false
+					for _, arg := range dc.Call.Args {
+						u, ok := arg.(*ssa.UnOp)
+						if !ok || u.Op != token.MUL {
+							continue
+						}
+						fv, ok := u.X.(*ssa.FreeVar)
+						if !ok {
+							continue
+						}
+						for i, x := range cl.FreeVars {
+							if x == fv {
+								if al, ok := mc.Bindings[i].(*ssa.Alloc); ok && isAccumulatorCell(al, region) {
+									onAcc = true
+								}
+							}
+						}
+					}
+					if !onAcc {
+						why = "the deferred delete does not take the accumulated files"
+						continue
+					}
+					if !(b.Dominates(header) && !region[b]) {
+						why = "the defer is not registered before the host loop"
+						continue
+					}
+					if g, flag, ok := unwindGuardOK(fn, mc, cl, blk); !ok {
+						why = g
+						continue
+					} else {
+						return true, g, flag
+					}
+				}
+			}
+		}
+	}
+	return false, why, nil
+}
+
+// unwindGuardOK: the returned cell is the completion flag when the delete is guarded by one
+// and by nothing else (then the deferred delete also runs on ordinary error returns).
+func unwindGuardOK(parent *ssa.Function, mc *ssa.MakeClosure, cl *ssa.Function, at *ssa.BasicBlock) (string, *ssa.Alloc, bool) {
+	desc := "unconditional"
+	var flag *ssa.Alloc
+	byRecover := false
+	for _, f := range factsAt(at) {
+		// recover() != nil
+		if x, neq, ok := nilCompare(f.Cond); ok {
+			if rc, ok := x.(*ssa.Call); ok && calleeKey(&rc.Call) == "builtin recover" {
+				if neq == f.Pol {
+					desc = "guarded by recover() != nil"
+					byRecover = true
+					continue
+				}
+				return "the deferred delete runs only when recover() returns nil, i.e. not while unwinding", nil, false
+			}
+		}
+		// completion flag: !*flag (or *flag == false)
+		v, pol := f.Cond, f.Pol
+		for {
+			if u, ok := v.(*ssa.UnOp); ok && u.Op == token.NOT {
+				v, pol = u.X, !pol
+				continue
+			}
+			break
+		}
+		if u, ok := v.(*ssa.UnOp); ok && u.Op == token.MUL && !pol {
+			if fv, ok := u.X.(*ssa.FreeVar); ok {
+				for i, x := range cl.FreeVars {
+					if x != fv {
+						continue
+					}
+					al, ok := mc.Bindings[i].(*ssa.Alloc)
+					if !ok {
+						break
+					}
+					good := true
+					for _, ref := range *al.Referrers() {
+						st, ok := ref.(*ssa.Store)
+						if !ok || st.Addr != al {
+							continue
+						}
+						k, isConst := st.Val.(*ssa.Const)
+						if !isConst {
+							good = false
+							continue
+						}
+						if k.Value != nil && k.Value.String() == "true" {
+							// must be followed by a return in the same block, with no call in between
+							idx := instrIndex(st)
+							for _, later := range st.Block().Instrs[idx+1:] {
+								switch later.(type) {
+								case *ssa.Return, *ssa.UnOp, *ssa.RunDefers, *ssa.Store:
+								default:
+									good = false
+								}
+							}
+							if _, isRet := st.Block().Instrs[len(st.Block().Instrs)-1].(*ssa.Return); !isRet {
+								good = false
+							}
+						}
+					}
+					if good {
+						desc = "guarded by a completion flag set only immediately before the successful return"
+						flag = al
+						goto next
+					}
+				}
+			}
+		}
+		return "the deferred delete is behind a condition the analysis cannot show to hold while unwinding: " + f.Cond.String(), nil, false
+	next:
+	}
+	if byRecover {
+		flag = nil
+	}
+	return desc, flag, true
 }
 
 // exitContext names an exit by the last package/library call whose error guards it,
